@@ -42,6 +42,30 @@ def run(ctx, broken):
                 if expect:
                     c["expect_prefix"] = expect
                 cs.append(c)
+    # MANY public inputs (batched / chunked processing of the public-input vector on the verifier side): counts around
+    # multiples of 16 and 32, all non-zero, and with zero-valued ones mixed in
+    for m in ([15, 31, 33, 40] if ctx.tier == "quick" else [15, 16, 17, 30, 31, 32, 33, 40, 47, 48, 49, 63, 64, 65, 100]):
+        for zeros in (False, True):
+            if zeros and ctx.tier == "quick" and m != 33:
+                continue
+            gates = m + 4 + rng.below(6)
+            rows = tuple(range(4, 4 + m))
+            p = sized_program(rng, gates, rows)
+            src = p.src()
+            if zeros:      # every third public input is zero-valued (filtered out of the sparse evaluation)
+                ops = src.split(";"); k = 0
+                for i_, op in enumerate(ops):
+                    if op.startswith("pub "):
+                        k += 1
+                        if k % 3 == 0:
+                            ops[i_] = "pub 0"
+                src = ";".join(ops)
+            size = 1
+            while size < gates + 6:
+                size *= 2
+            draws = [draw_hex(rng) for _ in range(14)]
+            cs.append({"line": prove_line(srs, size, b"many-pis", draws, 3, src, routes=True),
+                       "tags": ["many-public-inputs", "pis=%d" % m] + (["zero-valued-pis"] if zeros else [])})
     # gadget-heavy circuits through all three routes
     for i in range(2 if ctx.tier == "quick" else 12):
         p = PProg()
@@ -65,7 +89,7 @@ def run(ctx, broken):
     st = r.report()
     st["rule"] = ("constraint counts 2^k+off for k=3..%d, off in -8..8 (padding 6 / blinding 6 / next-power-of-two interplay), "
                   "SRS degree exactly sufficient and one too small, public inputs on the first user row / last row / adjacent rows / "
-                  "none, random labels (0..64 bytes); gadget circuits (one with every widget), a circuit whose selectors are entries of the "
+                  "none, 15..40 (thorough: ..100) public inputs incl. zero-valued ones, random labels (0..64 bytes); gadget circuits (one with every widget), a circuit whose selectors are entries of the "
                   "compressed format's built-in dictionary. Per case the real compile+prove (scripted RNG) must give the "
                   "byte-identical proof of the Lean specification prover, its own verifier and the Lean model verifier must accept, "
                   "keys compiled from the compressed description and keys decoded from bytes must be identical and prove/verify "
